@@ -121,6 +121,36 @@ def comp_case(op, ka, kb, k=0):
     return Case(name, body, goals, family="compose/" + op, params=dict(op=op, a=ka, b=kb, k=k))
 
 
+def product_history_case():
+    """product of factors that depend on an EXTERNAL parameter (not on each other): volume() asked twice on the same
+    object with different parameter rows -- every answer is the product of the factors' measures at its own row"""
+    name = "compose/product_external_parameter/two_queries"
+
+    def body(env):
+        L = env.L
+        a = SH.circle(env, tag="A", dep="t")
+        b = SH.interval(env, tag="B", var="y")
+        d = a.dom * b.dom
+        out = []
+        for q in range(2):
+            P, rows = SH.params(env, [("t", 1)], 1 + q, tag="prm%d" % q)
+            for prm in rows:
+                env.assume(a.oset.positive(prm, L))
+            env.assume(b.oset.positive({}, L))
+            v = d.volume(P)
+            out.append(dict(v=v.reshape(-1, 1), want=[a.oset.volume(prm, L) * b.oset.volume({}, L) for prm in rows]))
+        return dict(q=out)
+
+    def goals(o, L, env):
+        for qi, q in enumerate(o["q"]):
+            yield "one_value_per_row[query%d]" % qi, len(q["v"]) == len(q["want"])
+            if len(q["v"]) == len(q["want"]):
+                for i, (v, w) in enumerate(zip(q["v"], q["want"])):
+                    yield "volume_eq[query%d,row%d]" % (qi, i), L.eq(v[0], w)
+
+    return Case(name, body, goals, family="compose/product_external_parameter")
+
+
 def density_case(kind, boundary, grid):
     name = "density/%s/%s%s" % ("grid" if grid else "random", kind, "/boundary" if boundary else "")
 
@@ -175,6 +205,7 @@ def cases(tier):
             cs.append(comp_case(op, a, a, k=0))
         cs.append(comp_case("translate", a, a, k=2))
     cs.append(comp_case("set_volume_cut", "Circle", "Parallelogram"))
+    cs.append(product_history_case())
     for kind in ("Interval", "Circle", "Parallelogram") + (("Sphere",) if tier == "thorough" else ()):
         cs.append(density_case(kind, False, False))
         if kind != "Sphere":
